@@ -2,6 +2,6 @@ import sys,os
 sys.path.insert(0,os.path.dirname(os.path.dirname(os.path.abspath(__file__))))
 from jobs_lib import vf,blk,other
 def jobs(tier):
-    return vf(tier,'C09')
+    return vf(tier,'C09')+other('C02',tier,lambda j:j.name.startswith('K-synth'))[:1]+blk(tier,lambda j:j.name.startswith('blockin-step'))[:1]
 CLAIM={'text':"Bounded model checking of the link bookkeeping used while reading a chained file: at a link boundary the serial number selects the matching table entry, the decoder is rebuilt with that link's info, per-link offsets enter the position exactly once; streaming handles never touch the seekable-only tables.",
  'note':"Trusted: contract stubs for framing/decode. NOT covered yet: construction of the link tables at open (_bisect_forward_serialno/_open_seekable2) - the chain-table harness of DESIGN section 3 is not built; so 'reports k links with exact lengths' is not decided, only the consumption of a correct table."}
